@@ -208,6 +208,7 @@ def c11(prog, rep):
     HA.rule_i9(prog, rep)
     from . import bufrules as BW
     BW.rule_growth_room(prog, rep, C.C11_UNITS)
+    BW.rule_sentinel_closed(prog, rep, C.C11_UNITS)
     O.rule_m6(prog, rep, C.C11_UNITS)
     HA.rule_i12(prog, rep)
     from . import dlist as DL
@@ -246,6 +247,8 @@ def c15(prog, rep):
     O.rule_a8(prog, rep, C.C11_UNITS)
     O.rule_m3(prog, rep, om, C.C11_UNITS)
     O.rule_a9(prog, rep, units)
+    from . import bufrules as BW0
+    BW0.rule_sentinel_closed(prog, rep, units)
     from . import bufrules as BW
     BW.rule_fmt_complete(prog, rep, units)      # a failed growth of the formatting buffer must not be taken for a complete text
     BW.rule_valist_once(prog, rep, units)
